@@ -132,6 +132,11 @@ func (p c14) Run(c *core.Ctx) {
 			// the very line parsed last (or an earlier one) again
 			probe, pk = hist[n-1], "repeats-the-last-history-line"
 			if r.Chance(1, 3) {
+				// a history line again, apart from the white space around it
+				base := strings.TrimSpace(hist[r.Intn(n)])
+				probe, pk = r.Pick("", " ", "  ", "\t", "\u00a0 ")+base+r.Pick("", " ", "  "), "repeats-a-history-line-with-other-white-space-around-it"
+				c.Feature("probe-repeats-a-history-line-with-other-white-space-around-it")
+			} else if r.Chance(1, 3) {
 				probe, pk = hist[r.Intn(n)], "repeats-a-history-line"
 			}
 			c.Feature("probe-repeats-a-history-line")
